@@ -365,6 +365,52 @@ func C16(run *ev.Run, tier string) map[string]interface{} {
 				}
 			})
 		}
+		// malformed placeholder keys that the expression lexer never sees: supplied next to a well-formed
+		// placeholder the expression really uses, or used only in a projection expression (which the
+		// library does not parse). A well-formed counterpart of each shape must pass.
+		for _, bad := range []struct {
+			kind, key string
+			malformed bool
+		}{
+			{"name", "#", true}, {"name", "#a-b", true}, {"name", "#a.b", true}, {"name", "#a b", true}, {"name", "#a\u00f1o", true}, {"name", "#\u0663", true}, {"name", "#a\u00b2", true}, {"name", "##a", true}, {"name", "#a#", true},
+			{"name", "#a_1", false}, {"name", "#A9", false}, {"name", "#_", false},
+			{"value", ":", true}, {"value", ":a-b", true}, {"value", ":a\u00f1o", true}, {"value", ":\u0663", true}, {"value", "::a", true},
+			{"value", ":a_1", false}, {"value", ":_", false},
+		} {
+			d, bad := d, bad
+			for _, via := range []string{"next-to-used", "projection-only"} {
+				via := via
+				if bad.kind == "value" && via == "projection-only" {
+					continue
+				}
+				add(func() {
+					impl := d.New()
+					impl.Do(drv.Op{K: drv.KCreate, Table: "tab", Cfg: &drv.TableCfg{Hash: "h", HashT: "S", Billing: "PAY_PER_REQUEST"}})
+					var op drv.Op
+					switch {
+					case bad.kind == "name" && via == "projection-only":
+						proj := bad.key
+						op = drv.Op{K: drv.KScan, Table: "tab", ProjStr: &proj, Names: map[string]string{bad.key: "z"}}
+					case bad.kind == "name":
+						// the projection mentions both, so that neither counts as unused
+						cond, proj := "attribute_exists(#ok)", "#ok, "+bad.key
+						op = drv.Op{K: drv.KScan, Table: "tab", FiltStr: &cond, ProjStr: &proj, Names: map[string]string{"#ok": "z", bad.key: "y"}}
+					default:
+						// (the unused-value rule reads the projection text too: the recorded substring finding)
+						cond, proj := "z = :ok", bad.key
+						op = drv.Op{K: drv.KScan, Table: "tab", FiltStr: &cond, ProjStr: &proj, Values: map[string]val.V{":ok": val.S("x"), bad.key: val.S("y")}}
+					}
+					r := impl.Do(op)
+					count("malformed-placeholder-key")
+					switch {
+					case bad.malformed && r.Err == "":
+						run.Report(fmt.Sprintf("C16|malformed-placeholder-key-accepted|%s|%q|%s@%s", bad.kind, bad.key, via, d.Name), fmt.Sprintf("Scan %s succeeded although the %s placeholder key %q is malformed", op.String(), bad.kind, bad.key), nil)
+					case !bad.malformed && r.Err != "":
+						run.Report(fmt.Sprintf("C16|well-formed-placeholder-key-rejected|%s|%q|%s@%s", bad.kind, bad.key, via, d.Name), fmt.Sprintf("Scan %s failed (%s %s) although the %s placeholder key %q is well-formed and used", op.String(), r.Err, r.Msg, bad.kind, bad.key), nil)
+					}
+				})
+			}
+		}
 		// R3: key-condition shapes, base table and index
 		type shape struct {
 			name string
